@@ -15,7 +15,8 @@ reset_after — are inherited):
                            (buffered request still readable, getpeername() raises OSError(ENOTCONN), send raises
                            EPIPE, further reads ECONNRESET); the client sees a reset connection
 Bookkeeping: `result_replies` (every MSG_RESULT reply the server produced, unaltered, oldest first) and
-`delivered` (number of post-handshake requests handed to daemon.handleRequest).
+`delivered` (number of post-handshake requests handed to daemon.handleRequest), `oneway_answered` (number of times
+the server wrote reply bytes in answer to a request that carried FLAGS_ONEWAY).
 
 Header layout of Pyro5 ('!4sHBBHHII16sHH'): 0..3 'PYRO', 4..5 version, 6 type, 7 serializer, 8..9 flags,
 10..11 seq, 12..15 data length, 16..19 annotations length, 20..35 correlation id, 36..37 reserved, 38..39 magic.
@@ -24,6 +25,8 @@ import errno, struct
 from tools.lib.loopback import Loopback
 
 MSG_CONNECT = 1
+MSG_INVOKE = 4
+FLAGS_ONEWAY = 4
 MSG_RESULT = 5
 MSG_PING = 6
 
@@ -41,6 +44,7 @@ class Loopback03(Loopback):
         super().__init__(daemon, fragment)
         self.result_replies = []
         self.delivered = 0
+        self.oneway_answered = 0
         self.client_consumed = 0
 
     def _next_fault(self, c, msg):
@@ -67,6 +71,9 @@ class Loopback03(Loopback):
     def _apply_reply_fault(self, c, fault, reply):
         kind = fault.get("kind", "deliver")
         olds = list(self.result_replies)
+        req = c.requests[-1] if c.requests else b""
+        if reply and len(req) >= 40 and req[6] == MSG_INVOKE and struct.unpack("!H", bytes(req[8:10]))[0] & FLAGS_ONEWAY:
+            self.oneway_answered += 1     # the server wrote something in answer to a oneway request
         if reply and len(reply) >= 40 and wire_type(reply) == MSG_RESULT:
             self.result_replies.append(reply)
         if kind == "cut_frac":
